@@ -9,7 +9,7 @@ def c(engine, technique, text, ref, note=BASE_NOTE):
 
 CLAIMS = {
     "C01": c("vh", "runtime monitoring: reference-model oracle over generated types and values (release + debug builds)",
-             "Every save/load of generated values of ~340 type subjects (library types, generated derive definitions, every version of 20 evolution families; a fresh zoo per seed in the thorough tier) "
+             "Every save/load of generated values of ~320 type subjects (library types, generated derive definitions, every version of 20 evolution families; a fresh zoo per seed in the thorough tier) "
              "in all five containers is compared with the reference-normalised value and the consumed byte count. Held means: no counter-example among the executions listed; exploration is the right "
              "level because the quantifier is over type definitions and values, which are sampled with boundary bias, not enumerated.", "DESIGN.md §5 C01"),
     "C02": c("vh", "runtime monitoring: differential against an independent reference encoder/decoder",
@@ -22,7 +22,7 @@ CLAIMS = {
              "Every positive Packed decision is checked against size_of and the raw memory image; six container kinds are compared byte-for-byte and value-for-value with element-wise serialization; "
              "bulk reads of older-version data are compared with element-wise reads.", "DESIGN.md §5 C04"),
     "C05": c("vh", "runtime monitoring: all-pairs cross-loading with a three-valued layout-relation oracle",
-             "All ordered pairs of ~340 subjects (115k loads) with must-accept / must-reject / no-verdict classification computed from the harness' own shapes, plus header corruption with reader-position monitor.", "DESIGN.md §5 C05"),
+             "All ordered pairs of ~320 subjects (104k pairs) with must-accept / must-reject / no-verdict classification computed from the harness' own shapes, plus header corruption with reader-position monitor.", "DESIGN.md §5 C05"),
     "C06": c("vh", "runtime monitoring: structure-aware mutation fuzzing in isolated, address-space-limited child processes with a lengths-first / bit-pattern value inspector",
              "Mutants target every length, tag, discriminant, bool, char and special payload of valid encodings, plus schema sections and random bytes; outcomes are classified per input, process deaths and "
              "non-termination (child CPU time) are attributed to the journalled input. Release build (the only one in which size arithmetic wraps), Miri; thorough adds debug and AddressSanitizer.", "DESIGN.md §5 C06"),
